@@ -144,8 +144,13 @@ def one(cid, est, rng, big, wide=False):
             num = []
             if abs(obj.max() - G.max()) > 1e-12 or abs(obj.min() - G.min()) > 1e-12 or abs(obj.mean() - G.mean()) > 1e-12:
                 num.append("max-min-mean")
-            if abs(obj.max(format="kinship") - 0.5 * G.max()) > 1e-12 or abs(obj.mean(format="kinship") - 0.5 * G.mean()) > 1e-12:
+            # (format names are accepted in any letter case)
+            kin = rng.choice(["kinship", "kinship", "Kinship", "KINSHIP"]); coa = rng.choice(["coancestry", "Coancestry", "COANCESTRY"])
+            if abs(obj.max(format=kin) - 0.5 * G.max()) > 1e-12 or abs(obj.mean(format=kin) - 0.5 * G.mean()) > 1e-12 or abs(obj.min(format=kin) - 0.5 * G.min()) > 1e-12:
                 num.append("kinship-summaries")
+            if abs(obj.max(format=coa) - G.max()) > 1e-12 or abs(obj.mean(format=coa) - G.mean()) > 1e-12 or abs(obj.min(format=coa) - G.min()) > 1e-12 \
+                    or not np.array_equal(np.asarray(obj.mat_asformat(kin.capitalize())), K) or not np.array_equal(np.asarray(obj.mat_asformat(coa)), G):
+                num.append("format-name-letter-case")
             if abs(obj.max_inbreeding() - G.diagonal().max()) > 1e-12:
                 num.append("max-inbreeding")
             if np.linalg.matrix_rank(G) == n and np.linalg.cond(G) < 1e8:
